@@ -30,9 +30,11 @@ from ...analysis import (
     DefineUseAnalysis,
     Definition,
     FormatAnalysis,
+    LiveVars,
     ValueClass,
     ValueClassAnalysis,
 )
+from ...analysis.reaching_defs import same_object_defs
 from ...analysis.format_infer import (
     AbstractableFormat,
     AbstractFormat,
@@ -3673,6 +3675,42 @@ class CppEmitter(Visitor):
                     at=stmt,
                 )
 
+    def _loop_writes(self, stmt: ForStmt) -> tuple[frozenset, frozenset]:
+        """Names a trip of the loop can rebind, and names it only stores
+        elements into (these keep their object, hence their length)."""
+        rebound: set[NamedId] = set()
+        stored: set[NamedId] = set()
+        for phi in self.def_use.phis.get(stmt, ()):
+            header = self.def_use.def_to_idx[phi]
+            seen: set[int] = set()
+            work = [phi.rhs]
+            same_object = True
+            while work and same_object:
+                i = work.pop()
+                if i == header or i in seen:
+                    continue
+                seen.add(i)
+                prev = same_object_defs(self.def_use.defs[i])
+                same_object = bool(prev)
+                work.extend(prev)
+            (stored if same_object else rebound).add(phi.name)
+        return frozenset(rebound), frozenset(stored)
+
+    def _range_bound_once(self, e: Expr, ctx, writes) -> str:
+        """A bound of a ``range`` loop as C++ code.  ``range`` fixes its bounds
+        before the first trip, while the C++ header re-reads them on every one:
+        a bound whose value the loop body can change is snapshotted in a
+        constant ahead of the loop."""
+        code = self._visit_expr(e, ctx)
+        rebound, stored = writes
+        reads = LiveVars.analyze(e)
+        is_len = isinstance(e, Len) and isinstance(e.arg, Var)
+        if reads & rebound or (reads & stored and not is_len):
+            tmp = self._fresh_temp()
+            self.writer.add_line(f'const auto {tmp} = {code};')
+            return tmp
+        return code
+
     @staticmethod
     def _range_exit_test(counter: str, stop: str, step_expr: Expr, step: str) -> str:
         """The loop test of a stepped ``range``: a negative step counts down
@@ -3682,7 +3720,7 @@ class CppEmitter(Visitor):
         return f'({step} > 0 ? {counter} < {stop} : {counter} > {stop})'
 
     def _for_header(self, iterable: Expr, target: str, decl: str,
-                    target_def, ctx) -> str:
+                    target_def, ctx, writes=(frozenset(), frozenset())) -> str:
         """The ``for (...)`` header for *iterable*, without the brace.
 
         A ``Range*`` is a counter loop using *decl* as given; anything else is a
@@ -3694,19 +3732,19 @@ class CppEmitter(Visitor):
         """
         match iterable:
             case Range1():
-                stop = self._visit_expr(iterable.arg, ctx)
+                stop = self._range_bound_once(iterable.arg, ctx, writes)
                 return f'for ({decl} = 0; {target} < {stop}; ++{target})'
             case Range2():
                 start = self._visit_expr(iterable.first, ctx)
-                stop = self._visit_expr(iterable.second, ctx)
+                stop = self._range_bound_once(iterable.second, ctx, writes)
                 return (
                     f'for ({decl} = {start}; '
                     f'{target} < {stop}; ++{target})'
                 )
             case Range3():
                 start = self._visit_expr(iterable.args[0], ctx)
-                stop = self._visit_expr(iterable.args[1], ctx)
-                step = self._visit_expr(iterable.args[2], ctx)
+                stop = self._range_bound_once(iterable.args[1], ctx, writes)
+                step = self._range_bound_once(iterable.args[2], ctx, writes)
                 test = self._range_exit_test(target, stop, iterable.args[2], step)
                 return f'for ({decl} = {start}; {test}; {target} += {step})'
             case _:
@@ -3743,7 +3781,9 @@ class CppEmitter(Visitor):
     def _emit_for_loop(self, stmt: ForStmt, ctx, target: str, decl: str,
                        target_def) -> None:
         """``for (<header>) { body }``."""
-        header = self._for_header(stmt.iterable, target, decl, target_def, ctx)
+        header = self._for_header(
+            stmt.iterable, target, decl, target_def, ctx, self._loop_writes(stmt),
+        )
         self.writer.add_line(f'{header} {{')
         self.writer.indent()
         self._visit_block(stmt.body, ctx)
